@@ -118,6 +118,22 @@ STYLES['blocks'] = (
     'normalisation, floor, copy, conjugation and guard that exists; keep dtypes and shapes of all results identical (allow rounding-level differences of blockwise sums: compare with '
     'rtol=1e-9).')
 
+STYLES['optim'] = (
+    'Apply 10 to 16 independent, realistic, BEHAVIOUR-PRESERVING edits of the kind a maintainer makes to make the code FASTER or LEANER - always CORRECTLY, spread over as many of the listed '
+    'functions as possible. Use for example: MEMOISATION DONE RIGHT - a module-level dict or a dict created in __init__ that caches an expensive, pure computation under a key that contains '
+    'EVERYTHING the cached value depends on, by value (tuples of ints / floats / strings, shapes, x.tobytes() where the content matters; never id(), never rounded keys; never hand out a '
+    'cached array that somebody then writes to - return a copy or cache only immutable things such as index tuples, einsum paths, small tables); functools.lru_cache on private helpers with '
+    'hashable scalar arguments that return immutable values (tuples, floats); REUSED WORK BUFFERS allocated once per call with np.empty and always FULLY written (or only the written '
+    'part read back: buffer[:n]) before they are read; explicit dtype handling that keeps the result dtype: np.result_type / np.promote_types, x.astype(x.dtype, copy=False), '
+    'np.asarray(x, dtype=np.result_type(x, np.float64)) - never casting one argument to the dtype of ANOTHER argument; hoisting loop-invariant computations out of loops; early returns / '
+    'fast paths for special cases ONLY where the fast path returns exactly what the general path returns (same dtype, same shape, same values: e.g. skip a multiplication by an all-ones '
+    'array, skip a transposition that is the identity); replacing np.einsum by an equivalent with optimize=True or a precomputed np.einsum_path keyed by subscripts AND operand shapes; '
+    'np.einsum with out= into an own buffer; avoiding temporaries with np.multiply / np.add / np.divide and out= ONLY on arrays the function allocated itself; replacing a Python loop by a '
+    'vectorised expression (or the reverse for clarity) where each iteration only touches its own index; np.ascontiguousarray before repeated contractions; views instead of copies where '
+    'nothing is written afterwards. Keep every normalisation, floor, copy that protects an argument, conjugation and guard that exists; keep dtypes and shapes of all results identical; '
+    'results must be identical for ANY sequence of calls (call every touched function twice with different arguments of the same shape, and with arrays modified in place between the '
+    'calls, in your equivalence script).')
+
 TEMPLATE = '''You are helping to evaluate a static-analysis based verification tool for the Python library fgnt/pb_bss (EM mixture models, beamformers, permutation alignment, masks, metrics). The tool must NOT raise alarms on code whose behaviour is unchanged. Your job is to act as a careful maintainer who REFACTORS code WITHOUT changing behaviour, so that we can test the tool for false alarms.
 
 Work ONLY inside your own scratch git worktree of the library: {wt} (package directory {wt}/pb_bss). Do NOT read or write anything under /verif or /repo. Do not commit. Never use `git stash` (it is shared between worktrees).
